@@ -5,6 +5,7 @@ package main
 import (
 	"fmt"
 	"go/ast"
+	"go/constant"
 	"go/token"
 	"go/types"
 	"reflect"
@@ -567,5 +568,388 @@ func checkTrimOrder(c *Ctx, rule string) {
 	})
 	if n < 1 {
 		c.Unresolved(rule, "strings.Trim calls with a quote cutset in sql/sqlite")
+	}
+}
+
+// R08i: look-behind reads stay inside the input.
+const ruleTextLookBehind = "look-behind bounds in the statement scanner: every read s.input[s.pos-K] or s.input[s.pos-K:] with K >= 2 in a Scanner method stands where the enclosing conditions (&& operands to its left, if and case conditions) establish s.pos >= K (s.pos > K-1, s.pos >= K, s.pos == n with n >= K); one byte of look-behind is granted by the rune just consumed, two are not: a quote (or BEGIN) at the very start of a statement would index s.input[-1] and the scanner, which must be total, panics"
+
+func checkLookBehind(c *Ctx, rule string) {
+	n := 0
+	c.AllFuncs(false, func(fi *FuncInfo) {
+		if fi.Pkg.PkgPath != pMigrate || recvName(fi.Decl) != "Scanner" {
+			return
+		}
+		info := fi.Info()
+		pm := parentMap(fi.Decl)
+		ord := 0
+		isPos := func(e ast.Expr) bool {
+			se, ok := ast.Unparen(e).(*ast.SelectorExpr)
+			return ok && se.Sel.Name == "pos" && typeIs(derefType(info.TypeOf(se.X)), pMigrate, "Scanner")
+		}
+		isInput := func(e ast.Expr) bool {
+			se, ok := ast.Unparen(e).(*ast.SelectorExpr)
+			return ok && se.Sel.Name == "input" && typeIs(derefType(info.TypeOf(se.X)), pMigrate, "Scanner")
+		}
+		// K of an expression s.pos-K
+		behind := func(e ast.Expr) (int64, bool) {
+			be, ok := ast.Unparen(e).(*ast.BinaryExpr)
+			if !ok || be.Op != token.SUB || !isPos(be.X) {
+				return 0, false
+			}
+			return intConst(info, be.Y)
+		}
+		ast.Inspect(fi.Decl.Body, func(m ast.Node) bool {
+			var idx ast.Expr
+			var node ast.Node
+			switch x := m.(type) {
+			case *ast.IndexExpr:
+				if isInput(x.X) {
+					idx, node = x.Index, x
+				}
+			case *ast.SliceExpr:
+				if isInput(x.X) && x.Low != nil {
+					idx, node = x.Low, x
+				}
+			}
+			if idx == nil {
+				return true
+			}
+			k, ok := behind(idx)
+			if !ok || k < 2 {
+				return true
+			}
+			n++
+			ord++
+			c.funcs[fi.Name] = true
+			var lower int64
+			for _, f := range enclosingFacts(pm, node) {
+				be, ok := ast.Unparen(f.expr).(*ast.BinaryExpr)
+				if !ok {
+					continue
+				}
+				op, x, y := be.Op, be.X, be.Y
+				if isPos(y) { // n < s.pos → s.pos > n
+					x, y = y, x
+					switch op {
+					case token.LSS:
+						op = token.GTR
+					case token.LEQ:
+						op = token.GEQ
+					case token.GTR:
+						op = token.LSS
+					case token.GEQ:
+						op = token.LEQ
+					}
+				}
+				v, isC := intConst(info, y)
+				if !isPos(x) || !isC {
+					continue
+				}
+				if !f.val {
+					switch op {
+					case token.LSS:
+						op = token.GEQ
+					case token.LEQ:
+						op = token.GTR
+					case token.NEQ:
+						op = token.EQL
+					default:
+						continue
+					}
+				}
+				switch op {
+				case token.GTR:
+					lower = max(lower, v+1)
+				case token.GEQ, token.EQL:
+					lower = max(lower, v)
+				}
+			}
+			c.Check(rule, fmt.Sprintf("%s|look-behind %d of %d bytes is within the input", fi.Name, ord, k), node.Pos(), lower >= k, "%s reads %s where only s.pos >= %d is established: at the start of the input (or of a statement, after the consumed text was cut off) the index is negative and Scan panics instead of returning statements or an error", fi.Name, types.ExprString(node.(ast.Expr)), lower)
+			return true
+		})
+	})
+	if n < 2 {
+		c.Unresolved(rule, "reads of s.input[s.pos-K] with K >= 2 in the Scanner methods (fewer than 2)")
+	}
+}
+
+func intConst(info *types.Info, e ast.Expr) (int64, bool) {
+	tv, ok := info.Types[e]
+	if !ok || tv.Value == nil || tv.Value.Kind() != constant.Int {
+		return 0, false
+	}
+	return constant.Int64Val(tv.Value)
+}
+
+// R15p: strings of the schema are written as HCL string values, never as expression text.
+const ruleTextNoQuotedExprText = "strings of the schema reach the document as string values: in the schema→spec writers (dialect sqlspec files and specutil) the text handed to a raw-expression or reference constructor (specutil.VarAttr, schemahcl.RefAttr/RefValue/RawAttr, a Ref or RawExpr literal) is never a Go-quoted string (strconv.Quote, fmt.Sprintf with %q) of a schema value: Go quoting knows nothing of HCL templates, so a predicate containing `${` or `%{` is read back as an interpolation (or does not parse), while schemahcl.StringAttr escapes them"
+
+func checkNoQuotedExprText(c *Ctx, rule string) {
+	n := 0
+	for _, pp := range []string{pSqlite, pMysql, pPostgres, pSpecutil} {
+		c.AllFuncs(false, func(fi *FuncInfo) {
+			if fi.Pkg.PkgPath != pp {
+				return
+			}
+			info := fi.Info()
+			goQuoted := func(e ast.Expr) string {
+				out := ""
+				ast.Inspect(e, func(k ast.Node) bool {
+					call, ok := k.(*ast.CallExpr)
+					if !ok || out != "" {
+						return out == ""
+					}
+					fn := calleeOf(info, call)
+					switch {
+					case funcIs(fn, "strconv", "", "Quote"):
+						if _, isConst := stringConst(info, call.Args[0]); !isConst {
+							out = types.ExprString(call)
+						}
+					case funcIs(fn, "fmt", "", "Sprintf") && len(call.Args) > 1:
+						if f, ok := stringConst(info, call.Args[0]); ok && strings.Contains(f, "%q") {
+							out = types.ExprString(call)
+						}
+					}
+					return true
+				})
+				return out
+			}
+			ord := 0
+			ast.Inspect(fi.Decl.Body, func(m ast.Node) bool {
+				var text ast.Expr
+				var pos token.Pos
+				switch x := m.(type) {
+				case *ast.CallExpr:
+					fn := calleeOf(info, x)
+					switch {
+					case funcIs(fn, pSpecutil, "", "VarAttr"), funcIs(fn, pHCL, "", "RawAttr"):
+						if len(x.Args) == 2 {
+							text, pos = x.Args[1], x.Pos()
+						}
+					case funcIs(fn, pHCL, "", "RefValue"):
+						if len(x.Args) == 1 {
+							text, pos = x.Args[0], x.Pos()
+						}
+					}
+				case *ast.CompositeLit:
+					t := derefType(info.TypeOf(x))
+					if typeIs(t, pHCL, "Ref") || typeIs(t, pHCL, "RawExpr") {
+						for _, el := range x.Elts {
+							if kv, ok := el.(*ast.KeyValueExpr); ok {
+								if id, ok := kv.Key.(*ast.Ident); ok && (id.Name == "V" || id.Name == "X") {
+									text, pos = kv.Value, x.Pos()
+								}
+							}
+						}
+					}
+				}
+				if text == nil {
+					return true
+				}
+				n++
+				ord++
+				c.funcs[fi.Name] = true
+				q := goQuoted(text)
+				c.Check(rule, fmt.Sprintf("%s|expression text %d is not a Go-quoted schema string", fi.Name, ord), pos, q == "", "%s writes %s into the document as expression text: a value containing ${ or %%{ (an index predicate `b <> '${x}'`) is read back as a template interpolation or fails to parse, so the HCL does not evaluate to the schema it was written from", fi.Name, q)
+				return true
+			})
+		})
+	}
+	if n < 10 {
+		c.Unresolved(rule, "raw-expression / reference attribute constructions in the spec writers (fewer than 10)")
+	}
+}
+
+// R07l: the dialect scanner reads only native files.
+const ruleTextNativeOnly = "reader/format agreement: migrate.FileStmtDecls hands the file's bytes to the driver's statement scanner (StmtScanner.ScanStmts) only where the file was established to be a *LocalFile, the native format; the files of the other formats (goose, dbmate, flyway, liquibase, golang-migrate wrappers) carry their down section and their directives in the same bytes and must be split by their own StmtDecls — scanned raw, the reverse statements are returned (and executed) after the planned ones"
+
+func checkNativeOnly(c *Ctx, rule string) {
+	fi := c.LookupFunc(pMigrate, "", "FileStmtDecls")
+	if fi == nil || fi.Decl.Body == nil {
+		c.Unresolved(rule, "migrate.FileStmtDecls")
+		return
+	}
+	info := fi.Info()
+	pm := parentMap(fi.Decl)
+	f := newFlow(info, fi.Decl.Body)
+	isLocalAssert := func(e ast.Expr) bool {
+		ta, ok := ast.Unparen(e).(*ast.TypeAssertExpr)
+		return ok && ta.Type != nil && typeIs(derefType(info.TypeOf(ta.Type)), pMigrate, "LocalFile")
+	}
+	// found-flags of f.(*LocalFile)
+	flags := map[types.Object]bool{}
+	ast.Inspect(fi.Decl.Body, func(m ast.Node) bool {
+		if as, ok := m.(*ast.AssignStmt); ok && len(as.Lhs) == 2 && len(as.Rhs) == 1 && isLocalAssert(as.Rhs[0]) {
+			if id, ok := as.Lhs[1].(*ast.Ident); ok {
+				flags[info.ObjectOf(id)] = true
+			}
+		}
+		return true
+	})
+	n := 0
+	ast.Inspect(fi.Decl.Body, func(m ast.Node) bool {
+		call, ok := m.(*ast.CallExpr)
+		if !ok {
+			return true
+		}
+		fn := calleeOf(info, call)
+		if fn == nil || fn.Name() != "ScanStmts" {
+			return true
+		}
+		n++
+		c.funcs[fi.Name] = true
+		good := false
+		// inside a type-switch case for *LocalFile
+		if cc, ok := enclosing(pm, call, func(nd ast.Node) bool { _, ok := nd.(*ast.CaseClause); return ok }).(*ast.CaseClause); ok {
+			if _, isTS := pm[pm[cc]].(*ast.TypeSwitchStmt); isTS && len(cc.List) == 1 && typeIs(derefType(info.TypeOf(cc.List[0])), pMigrate, "LocalFile") {
+				good = true
+			}
+		}
+		if !good {
+			good = f.allPathsImply(call, func(e ast.Expr, val bool) bool {
+				id, ok := ast.Unparen(e).(*ast.Ident)
+				return ok && val && flags[info.ObjectOf(id)]
+			})
+		}
+		c.Check(rule, "migrate.FileStmtDecls|the driver scanner reads only *LocalFile", call.Pos(), good, "FileStmtDecls passes the raw bytes of any file to the driver's ScanStmts: a goose/dbmate/flyway file is no longer split by its own reader, so the statements of its down section follow the planned ones in what FileStmts returns and `migrate apply` executes them")
+		return true
+	})
+	if n < 1 {
+		c.Unresolved(rule, "the call of StmtScanner.ScanStmts in migrate.FileStmtDecls")
+	}
+}
+
+// R06k: a validation helper succeeds only when the validation did.
+const ruleTextValidateStrict = "a missing or wrong sum is never waved through: in the cmdapi functions that assign the result of migrate.Validate to an error variable, every `return nil` stands where that variable is known to be nil (every path to it takes a branch implying err == nil); the tolerant consumers are enumerated with their reason (`migrate import` reads a foreign directory that has no sum yet). checkDir is the PreRunE of new/diff/hash/set/status/validate: a branch that accepts ErrChecksumNotFound lets a directory whose atlas.sum was deleted after tampering be re-hashed as if it were intact"
+
+var validateTolerant = map[string]string{
+	"cmdapi.migrateImportCmd": "imports a directory written by another tool: it has no atlas.sum yet (ErrChecksumNotFound accepted, any other error returned)",
+}
+
+func checkValidateStrict(c *Ctx, rule string) {
+	n := 0
+	c.AllFuncs(true, func(fi *FuncInfo) {
+		if fi.Pkg.PkgPath != pCmdapi {
+			return
+		}
+		info := fi.Info()
+		// bodies: the declaration and each function literal separately
+		var bodies []*ast.BlockStmt
+		bodies = append(bodies, fi.Decl.Body)
+		ast.Inspect(fi.Decl.Body, func(m ast.Node) bool {
+			if fl, ok := m.(*ast.FuncLit); ok {
+				bodies = append(bodies, fl.Body)
+			}
+			return true
+		})
+		for _, body := range bodies {
+			var errVar types.Object
+			var assigned token.Pos
+			walkShallow(body, func(m ast.Node) bool {
+				as, ok := m.(*ast.AssignStmt)
+				if !ok || len(as.Lhs) != 1 || len(as.Rhs) != 1 {
+					return true
+				}
+				call, ok := ast.Unparen(as.Rhs[0]).(*ast.CallExpr)
+				if !ok || !funcIs(calleeOf(info, call), pMigrate, "", "Validate") {
+					return true
+				}
+				if id, ok := as.Lhs[0].(*ast.Ident); ok {
+					errVar, assigned = info.ObjectOf(id), as.End()
+				}
+				return true
+			})
+			if errVar == nil {
+				continue
+			}
+			n++
+			c.funcs[fi.Name] = true
+			if why, ok := validateTolerant[fi.Name]; ok {
+				c.Check(rule, fi.Name+"|listed tolerant consumer", body.Pos(), true, "%s", why)
+				continue
+			}
+			f := newFlow(info, body)
+			var bad ast.Node
+			walkShallow(body, func(m ast.Node) bool {
+				ret, ok := m.(*ast.ReturnStmt)
+				if !ok || len(ret.Results) == 0 || bad != nil {
+					return true
+				}
+				last := ast.Unparen(ret.Results[len(ret.Results)-1])
+				if id, ok := last.(*ast.Ident); !ok || id.Name != "nil" {
+					return true
+				}
+				// only returns after the validation
+				if ret.Pos() < assigned {
+					return true
+				}
+				if !f.allPathsImply(ret, func(e ast.Expr, val bool) bool {
+					// only tests made after the validation result was stored
+					if e.Pos() < assigned {
+						return false
+					}
+					be, ok := ast.Unparen(e).(*ast.BinaryExpr)
+					if !ok {
+						return false
+					}
+					x, y := ast.Unparen(be.X), ast.Unparen(be.Y)
+					if id, ok := y.(*ast.Ident); !ok || id.Name != "nil" {
+						return false
+					}
+					id, ok := x.(*ast.Ident)
+					if !ok || info.ObjectOf(id) != errVar {
+						return false
+					}
+					return be.Op == token.EQL && val || be.Op == token.NEQ && !val
+				}) {
+					bad = ret
+				}
+				return true
+			})
+			c.Check(rule, fi.Name+"|success only after a successful validation", nodePos(bad, body.Pos()), bad == nil, "%s returns nil at %s although migrate.Validate may have returned an error on that path: the command goes on (and re-hashes) a directory whose sum file is missing or does not match", fi.Name, c.nodeAtOrEnd(bad))
+		}
+	})
+	if n < 2 {
+		c.Unresolved(rule, "cmdapi functions that keep the result of migrate.Validate in a variable (fewer than 2)")
+	}
+}
+
+// R10i: a failed read of the history is not "no such revision".
+const ruleTextNotFoundOnly = "the history storage distinguishes absence from failure: in the EntRevisions readers (ReadRevision, CurrentRevision) migrate.ErrRevisionNotExist is returned only where ent.IsNotFound(err) was tested and true; every other error of the query is returned as it is. Executor.Execute treats ErrRevisionNotExist as `this file was never started`: if a transient failure (a locked SQLite database, a dropped connection) is reported that way, the partially applied file is restarted from its first statement and its partial revision is overwritten"
+
+func checkNotFoundOnly(c *Ctx, rule string) {
+	n := 0
+	c.AllFuncs(true, func(fi *FuncInfo) {
+		if fi.Pkg.PkgPath != pCmdmig || recvName(fi.Decl) != "EntRevisions" || fi.Decl.Body == nil {
+			return
+		}
+		info := fi.Info()
+		f := newFlow(info, fi.Decl.Body)
+		walkShallow(fi.Decl.Body, func(m ast.Node) bool {
+			ret, ok := m.(*ast.ReturnStmt)
+			if !ok || len(ret.Results) == 0 {
+				return true
+			}
+			se, ok := ast.Unparen(ret.Results[len(ret.Results)-1]).(*ast.SelectorExpr)
+			if !ok || se.Sel.Name != "ErrRevisionNotExist" {
+				return true
+			}
+			n++
+			c.funcs[fi.Name] = true
+			good := f.allPathsImply(ret, func(e ast.Expr, val bool) bool {
+				call, ok := ast.Unparen(e).(*ast.CallExpr)
+				if !ok || !val {
+					return false
+				}
+				fn := calleeOf(info, call)
+				return fn != nil && fn.Name() == "IsNotFound"
+			})
+			c.Check(rule, fi.Name+"|ErrRevisionNotExist only for a not-found result", ret.Pos(), good, "%s reports migrate.ErrRevisionNotExist on a path where the query error was not established to be a not-found error: a transient read failure makes the executor believe the file was never started, and the statements already applied are executed again", fi.Name)
+			return true
+		})
+	})
+	if n < 2 {
+		c.Unresolved(rule, "returns of migrate.ErrRevisionNotExist in the EntRevisions readers (fewer than 2)")
 	}
 }
